@@ -173,3 +173,6 @@ M2('c13-both-prologue-needs-crlf', 'C13', 'R4', [
 M2('c13-both-dash-boundary-without-dashes', 'C13', 'R4', [
     {'file': SYNC, 'old': "self._dash_boundary = b'--' + boundary", 'new': "self._dash_boundary = boundary"},
     {'file': ASGI, 'old': "self._dash_boundary = b'--' + boundary", 'new': "self._dash_boundary = boundary"}])
+
+M('c13-parse-header-fast-path-with-quotes', 'C13', 'R8', 'falcon/util/mediatypes.py',
+  """    if '"' not in line and '\\\\' not in line:""", """    if '\\\\' not in line:""", also=('C11',))
